@@ -12,7 +12,6 @@ pub use src::*;
 
 pub mod c07_win;
 pub mod c02_layout;
-pub mod c08_lookups;
 pub mod c09_numbers;
 pub mod c17_paths;
 pub mod c19_confidence;
@@ -27,7 +26,6 @@ pub fn registry() -> Vec<(&'static str, fn(&mut TapeSrc))> {
     c17_paths::register(&mut v);
     c02_layout::register(&mut v);
     c09_numbers::register(&mut v);
-    c08_lookups::register(&mut v);
     c19_confidence::register(&mut v);
     v
 }
